@@ -17,6 +17,12 @@ impl Invert {
 
 impl Pattern for Invert {
     fn matches(&self, tokens: &[Token], source: &[char]) -> usize {
+        // An inverted pattern consumes exactly one token, so it cannot match when no token is
+        // left (a match length may never exceed `tokens.len()`).
+        if tokens.is_empty() {
+            return 0;
+        }
+
         if self.inner.matches(tokens, source) != 0 {
             0
         } else {
